@@ -10,6 +10,15 @@ but are different expressions with different `doit()` results:
   two instances have pickles of equal length and aligned layout (used to replay the model's
   two-writer hybrid on real bytes when the code writes straight to the final name).
 
+* FUNCTION-VALUED attributes (`callable_families`): `EnergyDependentWidth(..., phsp_factor=f)` and
+  `ApplyRule(x, rule=f)` (defined here) where `f` is a bound method of different instances of one
+  class, a classmethod bound to different subclasses, a `functools.partial`, a callable instance,
+  a module-level function: all print identically; whether they are `==` / hash alike is decided by
+  the decorator's `_get_hashable_object`, i.e. by the code under test.  Lambdas of one scope and
+  closures of one factory (`unpicklable_callable_families`: pickle cannot store them, so only the
+  key-equality obligation speaks about them) and classes of one qualified name
+  (`known_confusion_families`: the unchanged library DOES identify them — known finding, C10).
+
 The module must be importable by name in worker subprocesses (pickle stores the class by reference).
 """
 
@@ -46,8 +55,159 @@ def _make_pick_larger():
 PickLarger = _make_pick_larger()
 
 
+class PhspConvention:
+    """User-side configuration object: which phase-space convention an analysis uses.  Its bound
+    method `factor`, the instance itself (`__call__`) and the classmethod `rho` are all legitimate
+    `phsp_factor` arguments (any callable (s, m_a, m_b) -> Expr)."""
+
+    KINDS = ("PhaseSpaceFactor", "PhaseSpaceFactorAbs", "PhaseSpaceFactorComplex", "PhaseSpaceFactorSWave")
+    kind_of_class = "PhaseSpaceFactor"
+
+    def __init__(self, kind: str) -> None:
+        self.kind = kind
+
+    def factor(self, s, m_a, m_b):
+        import ampform.dynamics as dyn
+
+        return getattr(dyn, self.kind)(s, m_a, m_b)
+
+    __call__ = factor
+
+    @classmethod
+    def rho(cls, s, m_a, m_b):
+        import ampform.dynamics as dyn
+
+        return getattr(dyn, cls.kind_of_class)(s, m_a, m_b)
+
+
+class PhspConventionAbs(PhspConvention):
+    kind_of_class = "PhaseSpaceFactorAbs"
+
+
+class PhspConventionComplex(PhspConvention):
+    kind_of_class = "PhaseSpaceFactorComplex"
+
+
+def phsp_by_kind(s, m_a, m_b, kind="PhaseSpaceFactor"):
+    import ampform.dynamics as dyn
+
+    return getattr(dyn, kind)(s, m_a, m_b)
+
+
+def phsp_abs(s, m_a, m_b):
+    return phsp_by_kind(s, m_a, m_b, "PhaseSpaceFactorAbs")
+
+
+def phsp_complex(s, m_a, m_b):
+    return phsp_by_kind(s, m_a, m_b, "PhaseSpaceFactorComplex")
+
+
+class PowerRule:
+    """callable configuration object for ApplyRule"""
+
+    def __init__(self, n: int) -> None:
+        self.n = n
+
+    def __call__(self, x):
+        return sp.sqrt(x) ** self.n + self.n
+
+    def shifted(self, x):
+        return (x + self.n) ** 2
+
+
+def power_rule(x, n=2):
+    return PowerRule(n)(x)
+
+
+def _make_apply_rule():
+    from ampform.sympy import argument
+
+    unevaluated = _unevaluated()
+
+    @unevaluated
+    class ApplyRule(sp.Expr):
+        x: Any
+        rule: Any = argument(sympify=False)
+        _latex_repr_ = R"R\left({x}\right)"
+
+        def evaluate(self) -> sp.Expr:
+            return self.rule(self.x)
+
+    ApplyRule.__module__ = __name__
+    ApplyRule.__qualname__ = "ApplyRule"
+    return ApplyRule
+
+
+ApplyRule = _make_apply_rule()
+
+
+def _width(ph, **kw):
+    from ampform.dynamics import EnergyDependentWidth
+
+    s, m0, w0, ma, mb, d = sp.symbols("s m0 Gamma0 m_a m_b d", nonnegative=True)
+    return EnergyDependentWidth(s, m0, w0, ma, mb, angular_momentum=1, meson_radius=d, phsp_factor=ph, **kw)
+
+
+def callable_families() -> dict[str, list]:
+    """Expressions that differ ONLY in a function-valued, non-sympified attribute (different
+    `doit()`), print identically, and can be pickled.  New instances on every call (as a later
+    process would build them)."""
+    import functools
+
+    kinds = PhspConvention.KINDS[1:3]
+    y = sp.Symbol("y", positive=True)
+    return {
+        "width_bound_methods": [_width(PhspConvention(k).factor) for k in PhspConvention.KINDS[:3]],
+        "width_classmethods": [_width(c.rho) for c in (PhspConventionAbs, PhspConventionComplex, PhspConvention)],
+        "width_partials": [_width(functools.partial(phsp_by_kind, kind=k)) for k in kinds],
+        "width_callable_instances": [_width(PhspConvention(k)) for k in kinds],
+        "width_functions": [_width(f) for f in (phsp_abs, phsp_complex)],
+        "width_named_bound_methods": [_width(PhspConvention(k).factor, name="Γ(s)") for k in kinds],
+        "rule_bound_methods": [ApplyRule(y, PowerRule(n).shifted) for n in (1, 2, 3)],
+        "rule_callables": [ApplyRule(y, PowerRule(2)), ApplyRule(y, PowerRule(4)),
+                           ApplyRule(y, functools.partial(power_rule, n=2)), ApplyRule(y, functools.partial(power_rule, n=4))],
+    }
+
+
+def unpicklable_callable_families() -> dict[str, list]:
+    """Lambdas of one scope, closures of one factory: same module and qualified name, different
+    behaviour.  pickle cannot store them (perform_cached_doit raises: recorded observation), so
+    they enter the key-equality obligation only."""
+    def factory(kind):
+        def rho(s, m_a, m_b):
+            return phsp_by_kind(s, m_a, m_b, kind)
+        return rho
+
+    lams = [lambda s, a, b: phsp_by_kind(s, a, b, "PhaseSpaceFactorAbs"),  # noqa: E731
+            lambda s, a, b: phsp_by_kind(s, a, b, "PhaseSpaceFactorComplex")]  # noqa: E731
+    y = sp.Symbol("y", positive=True)
+    return {
+        "width_lambdas": [_width(f) for f in lams],
+        "width_closures": [_width(factory(k)) for k in PhspConvention.KINDS[1:3]],
+        "rule_lambdas": [ApplyRule(y, lambda x: x + 1), ApplyRule(y, lambda x: x + 2)],
+    }
+
+
+def known_confusion_families() -> dict[str, list]:
+    """Two CLASSES of one module.qualname with different bodies: the unchanged library represents a
+    class by its qualified name, so these ARE `==` (known finding listed for C10).  Observation only."""
+    def make(kind):
+        class Rho:
+            def __new__(cls, s, m_a, m_b):
+                return phsp_by_kind(s, m_a, m_b, kind)
+        return Rho
+
+    return {"width_same_qualname_classes": [_width(make(k)) for k in PhspConvention.KINDS[1:3]]}
+
+
 def families() -> dict[str, list]:
     """name -> list of expressions that print identically (len >= 1)."""
+    fam = _base_families()
+    fam.update(callable_families())
+    return fam
+
+
+def _base_families() -> dict[str, list]:
     from ampform.dynamics import (
         BlattWeisskopfSquared,
         BreakupMomentumSquared,
@@ -148,7 +308,10 @@ def deep_equal(a, b) -> bool:
     if isinstance(a, sp.Symbol):
         return a.name == b.name and a.assumptions0 == b.assumptions0
     if isinstance(a, sp.Basic):
-        if a != b:
+        # `==` of an @unevaluated expression is decided by the decorator's _hashable_content (the code
+        # under test) and is False for a bound method / configuration object that went through pickle:
+        # for those classes the verdict is structural (args + attributes below), not `==`.
+        if a != b and not hasattr(type(a), "__dataclass_fields__"):
             return False
         if len(a.args) != len(b.args):
             return False
@@ -158,5 +321,39 @@ def deep_equal(a, b) -> bool:
         db = {k: v for k, v in getattr(b, "__dict__", {}).items() if not k.startswith("_")}
         if da.keys() != db.keys():
             return False
-        return all(deep_equal(da[k], db[k]) if isinstance(da[k], sp.Basic) else da[k] == db[k] for k in da)
+        return all(deep_equal(da[k], db[k]) if isinstance(da[k], sp.Basic) else same_plain(da[k], db[k]) for k in da)
+    return a == b
+
+
+def same_plain(a, b, depth: int = 0) -> bool:
+    """Identity of two non-SymPy attribute values judged by STRUCTURE, independently of the
+    decorator's `_get_hashable_object` and of `==`/`hash` of the objects (a bound method or a
+    configuration object that went through pickle is a new object, `==` says False): classes and
+    plain functions by identity; bound methods by function + state of `__self__`; partial objects
+    by func/args/keywords; other instances by type + `__dict__`."""
+    import functools
+    import inspect
+    import types
+
+    if a is b:
+        return True
+    if type(a) is not type(b) or depth > 6:
+        return False
+    if isinstance(a, sp.Basic):
+        return deep_equal(a, b)
+    if inspect.isclass(a) or isinstance(a, (types.FunctionType, types.BuiltinFunctionType)):
+        return False  # identity was checked above
+    if isinstance(a, types.MethodType):
+        return a.__func__ is b.__func__ and same_plain(a.__self__, b.__self__, depth + 1)
+    if isinstance(a, functools.partial):
+        return (same_plain(a.func, b.func, depth + 1) and same_plain(a.args, b.args, depth + 1)
+                and same_plain(a.keywords, b.keywords, depth + 1))
+    if isinstance(a, (tuple, list)):
+        return len(a) == len(b) and all(same_plain(x, y, depth + 1) for x, y in zip(a, b))
+    if isinstance(a, dict):
+        return a.keys() == b.keys() and all(same_plain(a[k], b[k], depth + 1) for k in a)
+    if isinstance(a, (str, bytes, int, float, complex, bool, type(None))):
+        return a == b
+    if hasattr(a, "__dict__") and type(a).__eq__ is object.__eq__:
+        return same_plain(vars(a), vars(b), depth + 1)
     return a == b
